@@ -18,7 +18,8 @@ CONTRACTS = True
 RULE = ("cases = unit cell (zoo incl. magnetic, hostile re-descriptions: integer shifts, atoms at 1-1e-9, rotated lattice, permuted order) x batch of supercell matrices "
         "({-1,0,1}^(3x3) with det>0: sample in quick, all 5904... in thorough; diagonal; random entries to +-4) x {old style, SNF} + primitive matrices "
         "(P,F,I,A,C,R,auto, explicit) on the built supercells + rejection inputs (det<=0, wrong centring, non-integer volume ratio); "
-        "non-trivial = matrix not the identity; distinct = (unit cell, matrix, algorithm) / (unit cell, supercell, primitive matrix)")
+        "non-trivial = matrix not the identity; distinct = (unit cell, matrix, algorithm) / (unit cell, supercell, primitive matrix); "
+        "additions of rounds 6-8: isotope-substituted unit cells (masses differing within one symbol); primitive cell requested in another atom order: cell, p2s_map and contracts follow; tolerance kind builds without symmetry search")
 ASSUMPTIONS = [
     "a constructor that returns an empty cell or raises counts as 'rejected'",
     "tolerances: lattice 1e-10 relative, integrality of image offsets 1e-8, masses/moments exact copy",
